@@ -289,6 +289,27 @@ fn containsg(xs: array<T Equal>, t: T) -> bool {
   }
   found
 }
+interface Two {
+  fn first(self) -> string
+  fn second(self) -> int
+  fn third(self, k: int) -> int
+}
+implement Two for Pa {
+  fn first(self) -> string = "Pa.first"
+  fn second(self) -> int = self.v + 1
+  fn third(self, k: int) -> int = self.v * k
+}
+implement Two for Pb {
+  fn third(self, k: int) -> int = self.v - k
+  fn first(self) -> string = "Pb.first"
+  fn second(self) -> int = self.v + 2
+}
+implement Two for int {
+  fn second(self) -> int = self + 3
+  fn third(self, k: int) -> int = self + k
+  fn first(self) -> string = "int.first"
+}
+fn twog(x: T Two) -> string = Two.first(x) .. ":" .. Two.second(x) .. ":" .. Two.third(x, 2)
 fn lamg(x: T ToString, n: int) -> string {
   let f = () -> "<" .. x .. n .. ">"
   f()
@@ -465,6 +486,11 @@ def cases():
     seq = [VALUES[t][0] for t in PRINTABLE]
     add("idg at every type in one program", "\n".join("println(idg(%s))" % v.src for v in seq + seq[::-1]), "".join(show(v) + "\n" for v in seq + seq[::-1]))
     add("showg at every type in one program", "\n".join("println(showg(%s))" % v.src for v in seq), "".join("<%s>\n" % show(v) for v in seq))
+    # an implementation may list its methods in any order: dispatch is by name
+    for src, e in (("Pa(5)", "Pa.first:6:10"), ("Pb(5)", "Pb.first:7:3"), ("5", "int.first:8:7")):
+        add("impl method order %s" % src, "let tv = %s\nprintln(tv.first() .. \":\" .. tv.second() .. \":\" .. tv.third(2))\nprintln(Two.first(tv) .. \":\" .. Two.second(tv) .. \":\" .. Two.third(tv, 2))\nprintln(twog(tv))" % src,
+            e + "\n" + e + "\n" + e + "\n")
+    add("impl method order at every type in one program", "println(twog(Pb(1)))\nprintln(twog(4))\nprintln(twog(Pa(1)))\nprintln(twog(Pb(2)))", "Pb.first:3:-1\nint.first:7:6\nPa.first:2:2\nPb.first:4:0\n")
     # a lambda / nested lambda / task inside the generic function uses the generic value: one body per
     # instantiation, also when the closure's own type is not generic, also at void
     for g, fmt in (("lamg", "<%s1>"), ("lam2g", "<<%s1>>"), ("taskg", "t<%s1>")):
